@@ -136,6 +136,9 @@ type peerGater struct {
 	peerStats map[peer.ID]*peerGaterStats
 	// stats per IP
 	ipStats map[string]*peerGaterStats
+	// peers we have an outbound stream to; a peer's entry in peerStats goes when it has none left,
+	// even while other peers behind the same IP keep the shared stats object alive
+	outbound map[peer.ID]struct{}
 
 	// for unit tests
 	getIP func(peer.ID) string
@@ -199,6 +202,7 @@ func newPeerGater(ctx context.Context, host host.Host, params *PeerGaterParams, 
 		params:    params,
 		peerStats: make(map[peer.ID]*peerGaterStats),
 		ipStats:   make(map[string]*peerGaterStats),
+		outbound:  make(map[peer.ID]struct{}),
 		host:      host,
 		logger:    logger,
 	}
@@ -377,6 +381,7 @@ func (pg *peerGater) OnNewOutboundStream(p peer.ID, proto protocol.ID) {
 
 	st := pg.getPeerStats(p)
 	st.connected++
+	pg.outbound[p] = struct{}{}
 }
 
 func (pg *peerGater) OnClosedOutboundStream(p peer.ID) {
@@ -391,6 +396,10 @@ func (pg *peerGater) removePeerStats(p peer.ID, outbound bool) {
 	pg.Lock()
 	defer pg.Unlock()
 
+	if outbound {
+		delete(pg.outbound, p)
+	}
+
 	st, ok := pg.peerStats[p]
 	if !ok {
 		return
@@ -401,6 +410,8 @@ func (pg *peerGater) removePeerStats(p peer.ID, outbound bool) {
 	}
 	if st.connected == 0 {
 		st.expire = time.Now().Add(pg.params.RetainStats)
+	}
+	if _, up := pg.outbound[p]; !up {
 		delete(pg.peerStats, p)
 	}
 }
